@@ -38,3 +38,42 @@ claim("C13",
       "Lean 4 proof (invariant by induction over histories and interleavings of a memo state machine) + bitmap/bit-exact differential runs against the real library in fresh and concurrent threads",
       "DESIGN.md section 6 C13",
       "Lean cannot observe Rust's memory model: thread_local!/OnceLock/LazyLock/lazy_static and the &'static mut from get_thread_local are trusted; the concurrent runs exercise them.")
+claim("C07",
+      "[full] Refinement theorems for ALL cells and ALL target resolutions (no bound on fan-out): the model's cell_to_parent / cell_to_children / get_res0_cells equal the inductive tree spec (A5.Spec.Tree: world / face / deep paths) "
+      "through the encoding: cellToParent (enc p) r' = enc (ancestorAt p r') with the exact error cases, cellToChildren (enc p) r' = (descendantsOrdered p r').map enc in the library's order with the exact error cases "
+      "(targetCoarser, exceedsMax, diffTooLarge beyond 20 levels, resTooLarge at 30). Corollaries = the sentences of the property: children distinct, of the target resolution, exactly 12/5/4-per-level many (closed product form), each with the cell as ancestor; "
+      "ancestor lookup composes; children of children = children at the deeper level (as lists); every non-world cell has exactly one parent; the children of all cells of level r enumerate level r+1 exactly once. "
+      "Tie to the code: correspondence on every cell r<=3 (quick) / r<=6 (thorough) x every admissible target, random cells to r=29, sequences compared in order; independent tree oracle on the implementation's output.",
+      "Lean 4 proof (refinement of the bit-level hierarchy functions to an inductive tree spec; induction over digit lists) + differential model/impl correspondence",
+      "DESIGN.md section 6 C07")
+claim("C09",
+      "[full] uncompact_closed_form (complete behaviour on any list of canonical ids) and uncompact_spec: for every list of cells and target R <= 29 with every input no finer than R (and within the 20-level per-call guard and the capacity guard, stated explicitly) "
+      "uncompact = concatenation, in input order, of each input's descendants at R; corollaries: outputs canonical, of resolution R, descending from their input, per-input blocks distinct, total length = sum of fan-outs; exceedsMax iff R >= 30; "
+      "targetCoarser exactly when some input is finer (under the no-overflow condition; the unconditional statement is refuted by a kernel-checked witness whose pre-count overflows: 18 world cells, outside the bounded-fan-out scope); "
+      "precount_harmless: the get_num_children == 1 shortcut is taken iff the resolutions are equal, including the inexact rows 28/29 of get_num_cells. "
+      "Tie to the code: correspondence on random mixed-resolution lists x targets -1..29 and out-of-range targets; independent per-input-block oracle.",
+      "Lean 4 proof (closed form of the two-phase loop, refinement to the tree spec) + differential model/impl correspondence",
+      "DESIGN.md section 6 C09")
+claim("C08",
+      "[full, on the repaired code] For EVERY finite list of valid ids (any order, duplicates, overlaps, non-canonical aliases): compact succeeds, canonicalises its input, returns a list strictly sorted by the hierarchy key (hence duplicate-free), "
+      "covers exactly the same region (compact_preserves_region / compact_preserves_descendants at every R at least as fine as the inputs; uncompact_compact_same_cells at model level), and depends only on the SET of input cells "
+      "(compact_depends_on_cells_only, compact_input_order_irrelevant). Ingredients proved: hierarchy key injective and every cell strictly between its first and last child, groupAt recognises exactly a contiguous complete sibling group starting at a first child, "
+      "one scan preserves region and strict sortedness, the loop terminates within its fuel. The pinned release's violations (duplicate base cell; [0,0]) are kept as kernel-checked witnesses against the frozen v0.6.2 algorithm (repaired by fix 7104abb). "
+      "Tie to the code: correspondence (as sets) on antichains, staged-complete subdivisions and overlapping/duplicate mixes in several orders; independent cover oracle; uncompact observation.",
+      "Lean 4 proof (invariants of the compaction scan: region, strict key order, termination measure) + differential model/impl correspondence",
+      "DESIGN.md section 6 C08")
+claim("C10",
+      "[full, on the repaired code] Pure tree theory (canonical_unique: two antichains without a complete sibling group that cover the same region have the same members) plus the model-level theorems for every non-overlapping input: "
+      "sorted_antichain_siblings_adjacent (in a key-sorted antichain a complete sibling group is contiguous and starts at the first child), pass_keeps_antichain (the code's 'no re-sorting needed' comment as a theorem), "
+      "compact_maximal (no complete group of 12 / 5 / 4 remains), compact_idempotent, compact_canonical (same region => equal result lists) and its converse. The pinned release's failure to merge the whole sphere is a kernel-checked witness against the frozen v0.6.2 algorithm. "
+      "Tie to the code: correspondence on antichains and fully subdivided roots over several faces whose groups complete only after earlier merges, each paired with a re-subdivided antichain of the same region; independent canonical-cover oracle; second compaction.",
+      "Lean 4 proof (order-theoretic uniqueness of the canonical cover; scan invariants on key-sorted antichains) + differential model/impl correspondence",
+      "DESIGN.md section 6 C10")
+claim("C14",
+      "[full for the integer API] int_api_total: for EVERY id, EVERY integer resolution and EVERY finite list none of deserialize, cell_to_parent, cell_to_children, get_res0_cells, get_num_cells, get_num_children (child <= 29), hex parsing, compact (no hypothesis at all: termination within fuel and absence of overflow in the sibling scan are theorems), "
+      "uncompact (under the property's own bounded-result scope, stated as a sum < 2^60) returns a panic (the model keeps every checked-arithmetic / index / fuel panic of the overflow-checked build as an outcome); int_api_valid_results: ok results are canonical ids of the requested resolution; aliasing: every call on a non-canonical id equals the call on its canonical alias; "
+      "errors_exact: out-of-range resolutions are rejected, never wrapped. [partial, float-dependent] lookup_outcomes (C01): lonlat_to_cell can only end in ok, err crsVertex or the float-dependent notCCW panic; index/overflow panics are ruled out for all inputs. "
+      "Panics, aborts and hangs of the real code are observed by the correspondence run itself: the malformed stream runs through an overflow-checked debug build AND a release build in a memory-limited child process, and every outcome class must equal the model's. "
+      "The eight crash/garbage defects of the pinned release are repaired (fix: commits) and their inputs run first as a corpus.",
+      "Lean 4 proof (totality of an outcome-typed model incl. termination measure) + outcome-class correspondence in debug and release builds under process isolation",
+      "DESIGN.md section 6 C14")
